@@ -1,5 +1,5 @@
 """C02 — serial queues run one item at a time, in submission order."""
-from lanetrace import run_lane
+from lanetrace import run_lane, forced
 
 META = {
     "text": "Lean theorems over the serial-lane protocol model (any number of threads, any client program, every interleaving of the model's atomic steps): at most one thread "
@@ -12,14 +12,16 @@ META = {
     "technique": "Lean 4 proof (thread-modular inductive invariant with ghost history) + replay of real atomic traces through the model's step function + stamp oracle",
 }
 
-THEOREMS = ["C02.serial_exclusion", "C02.serial_fifo", "C02.serial_fifo_unowned"]
+THEOREMS = ["C02.serial_exclusion", "C02.serial_fifo", "C02.serial_fifo_unowned", "C02.F15_sync_fast_path_overtakes"]
 
 
 def run(ctx):
     ctx.proof("DispatchVerif.Props.C02", THEOREMS)
-    ctx.assumptions += ["sequentially consistent interleaving model of the atomic operations (x86-TSO RMWs are SC)", "the MPSC list operations between two atomics are modelled as one step of the owner"]
+    ctx.assumptions += ["sequentially consistent interleaving model of the atomic operations (x86-TSO RMWs are SC)", "the MPSC list operations between two atomics are modelled as one step of the owner",
+                        "known finding F15: submission order is not kept between an asynchronous item and a later synchronous submission that takes the fast path while a first pusher has not yet woken the queue"]
     cfg = [(4, 400, 1), (8, 300, 1), (12, 150, 1), (6, 300, 0)] if not ctx.thorough else [(4, 3000, 1), (8, 2000, 1), (12, 1500, 1), (16, 1000, 1), (6, 2000, 0), (2, 4000, 1)]
-    run_lane(ctx, cfg, what="c02")
+    run_lane(ctx, cfg, what="c02", order_property=True)
+    forced(ctx, "f15_sync_overtake", "F15", "lane:order:sync-fastpath-overtakes:forced-F15", "F15")
     ctx.cov["rule"] = ("tr_lane workloads restricted to the serial queue (plus one mixed run): every item's start/end stamps and every submission's call/return stamps are checked for "
                        "overlap and order; every recorded dq_state transition must be a step of the serial models. distinct_nontrivial = transitions explained by the model")
 
